@@ -179,7 +179,12 @@ func checkEnumMembers(w *World, r *Result) {
 			}
 			if l := identOf(as.Lhs[0]); l != nil && objOf(info, l) == namedVar {
 				if ta, ok := as.Rhs[0].(*ast.TypeAssertExpr); ok {
-					if c2, ok := ta.X.(*ast.CallExpr); ok {
+					inner := ast.Unparen(ta.X)
+					// the constant's own type, possibly with its alias resolved: types.Unalias(decl.Type())
+					if c0, ok := inner.(*ast.CallExpr); ok && fullName(calleeOf(info, c0)) == "go/types.Unalias" && len(c0.Args) == 1 {
+						inner = ast.Unparen(c0.Args[0])
+					}
+					if c2, ok := inner.(*ast.CallExpr); ok {
 						if sel, ok := c2.Fun.(*ast.SelectorExpr); ok && sel.Sel.Name == "Type" && identOf(sel.X) != nil && objOf(info, identOf(sel.X)) == declVar {
 							namedFromDecl = true
 						}
